@@ -122,6 +122,13 @@ func selPath(e ast.Expr) (string, bool) {
 		return p + "." + x.Sel.Name, true
 	case *ast.ParenExpr:
 		return selPath(x.X)
+	case *ast.IndexExpr: // additive (C03): `xs[i]` as an assignment target of kind "expr"
+		p, ok := selPath(x.X)
+		q, ok2 := selPath(x.Index)
+		if !ok || !ok2 {
+			return "", false
+		}
+		return p + "[" + q + "]", true
 	}
 	return "", false
 }
